@@ -119,6 +119,10 @@ def run_case(cid, rng, workdir):
         if any(n == "case.ff" for n, _ in case["files"]):
             mods = "[ modification ]\nN-ter\n[ atoms ]\nA0 {\"resname\": \"RA\", \"replace\": {\"charge\": 1.0}}\n" \
                    "[ modification ]\nC-ter\n[ atoms ]\nA0 {\"resname\": \"RA\", \"replace\": {\"charge\": -1.0}}\n"
+            if rng.random() < 0.4:
+                # a force field whose only modification has another name (a capping group of the user's own)
+                mods = "[ modification ]\nCAP\n[ atoms ]\nA0 {\"resname\": \"RA\", \"replace\": {\"charge\": 0.5}}\n"
+                bump(res, "with_modification_definitions_of_other_names")
             case["files"] = [(n, t + mods if n == "case.ff" else t) for n, t in case["files"]]
             bump(res, "with_modification_definitions")
     # in a third of the runs the deferred writer keeps its temporary file on another file system than the output
